@@ -14,7 +14,7 @@ and every haystack; there is no bound on lengths.
 * `wrap_is_full`, `nogroup_escapes`        – what the wrapper means and why it needs the group
 * `matcher_sound`, `full_sound`            – executable matcher = declarative semantics (both directions)
 * `parse_wrap`                             – **ParseWrap** (DESIGN §3.3) is a theorem for the subset
-* `peel_wrap`, `wrap_peel_wrap`, `peel_spec`, `peel_idempotent_on_unwrapped`
+* `peel_wrap`, `peeled_patterns_wrap`, `wrap_peel_wrap`, `peel_spec`, `peel_idempotent_on_unwrapped`
 * `selector_matches_whole_name`, `empty_selects_all`, `acc_selector_selects`
 * `literal_selector`, `literal_part_not_selected`, `plain_pattern_selects` – never a substring match
 
@@ -90,6 +90,14 @@ theorem wrapStr_toList (p : String) : (wrapStr p).toList = wrapChars p.toList :=
 theorem peel_wrap (p : String) : peelStr (wrapStr p) = p := by
   unfold peelStr
   rw [wrapStr_toList, peelChars_wrapChars, String.ofList_toList]
+
+/-- `peeled_patterns(new_full_haystack_regex_set(ps)) == ps`: what the selector checksum and the filter
+    serialiser read back is what was configured -/
+theorem peeled_patterns_wrap (ps : List String) : peeledPatterns (ps.map wrapStr) = ps := by
+  unfold peeledPatterns
+  induction ps with
+  | nil => rfl
+  | cons p ps ih => simp only [List.map_cons, peel_wrap, List.map_map] at ih ⊢; rw [ih]
 
 /-- anchoring is neither lost nor compounded by a peel / wrap cycle -/
 theorem wrap_peel_wrap (p : String) : wrapStr (peelStr (wrapStr p)) = wrapStr p := by rw [peel_wrap]
